@@ -751,6 +751,9 @@ func replayMain(checks map[string]*Check) {
 // race detector is a violation.
 func RunRacePass(c *Ctx) {
 	bin := filepath.Join(VerifRoot, ".work", "bin", "vh-race")
+	if alt := os.Getenv("VH_RACE_BIN"); alt != "" {
+		bin = alt // mutation testing builds the race variant elsewhere
+	}
 	if _, err := os.Stat(bin); err != nil {
 		c.Infra("race build of the harness is missing: %v", err)
 
